@@ -27,8 +27,8 @@ def regularSpikes_while1 {α : Type} [Add α] [Div α] [OfNat α 0] [OfNat α 1]
 /-- `_generate_regular_spikes` -- literal translation; the result is `none` when the loop needs more than `fuel` iterations -/
 def regularSpikes {α : Type} [Add α] [Div α] [OfNat α 0] [OfNat α 1] [LT α] [LE α] [DecidableLT α] [DecidableLE α] (fuel : Nat) (T : α) (rate : α) : Option (List α) :=
   let spike_times : List α := []
-  let t : α := 0
   let isi : α := (1 / rate)
+  let t : α := 0
   match regularSpikes_while1 T isi fuel t spike_times with
   | none => none
   | some (t, spike_times) =>
